@@ -57,6 +57,35 @@ CLAIMS["C15"] = dict(
          "Re-spacing is checked by correspondence and oracle only (the lexer model is hand-written; Python's re is modelled).",
 )
 
+CLAIMS["C03"] = dict(
+    technique="Lean 4 invariant of the pending collection (embedding count, any chain length / stack depth) transferred to the model of HandlerCollection.proceed + call-tree correspondence + independent embedding reference",
+    text="Machine-checked proof, for chain selectors of any length and stacks of any depth (recursion, gaps), that the "
+         "selector component of the model of HandlerCollection.proceed is independent of the accumulators, that each "
+         "pending suffix occurs once per embedding of the matched prefix into the live stack, and hence that the number "
+         "of pairs ready to fire at a binding equals the number of embeddings of the path ending at the binding "
+         "activation (0 if none). The hand-written runtime model M3 (proceed, fork, register, interact, build, "
+         "check_captures) is compared event-for-event (order included) with BaseOverlay(Immediate) on generated "
+         "families of mutually calling tooled functions, and the implementation's events are compared with an "
+         "independent reference that recomputes embeddings and payloads from the call tree.",
+    design_ref="DESIGN.md section 5, C03",
+    note="The payload half of the property (latest values from exactly the matched activations; sibling values only "
+         "from calls under the matched activation) is not a Lean theorem: it is covered by the model correspondence "
+         "and the reference oracle. The model M3 is hand-written.",
+)
+CLAIMS["C07"] = dict(
+    technique="Lean 4 theorems on the Total accumulator model (close scheduling, completeness filter, append-only log) + kernel-evaluated counterexample for the known finding + call-tree correspondence + independent record reference",
+    text="Machine-checked proof over the runtime model M3 that a record is scheduled for an activation only through "
+         "the user's template accumulator (the outermost level), that a delivered record always carries exactly the "
+         "selector's capture names (incomplete calls deliver nothing) and that Total logging appends in order; the full "
+         "statement (each value once) is proved FALSE of the model by a kernel-evaluated witness (finding F17) which the "
+         "check replays on the implementation. Model and implementation are compared on generated call trees with "
+         "focus-free and forced-total selectors, raising calls and recursive outermost calls; records are compared "
+         "with an independent reference computed from the call tree.",
+    design_ref="DESIGN.md section 5, C07",
+    note="Known finding F17 (value recorded once per embedding) is listed in known_findings.json; the oracle accepts "
+         "exactly that deviation and nothing else. Forced-total focused selectors are compared with the model only.",
+)
+
 PENDING_REASON = ("not claimed yet in this build: the Lean model and correspondence check for this property are "
                   "still under construction (see DESIGN.md section 11); the technique applies and the property "
                   "will move to `checks` when its check exists")
